@@ -1,6 +1,8 @@
 package main
 
 import (
+	"strings"
+
 	"github.com/esimov/gogu/list"
 )
 
@@ -12,7 +14,64 @@ import (
 
 type slistRunner struct{ l *list.SList[int] }
 
+// long runs (protocol: `fill a n`, `q <op> …`, `sum`, `window i j`): the sequence is not printed after every step
+var listQuiet bool
+
+const listWalkLimit = 3000000 // Each on a list that has become cyclic never ends: give up (reported as hang)
+
+// listLong implements the long-run operations over the list's own Each / Unshift; ok=false: not a long-run op.
+func listLong(op []string, unshift func(int), each func(func(int)), do func([]string) string) (string, bool) {
+	switch op[0] {
+	case "fill":
+		a, n := atoi(op[1]), atoi(op[2])
+		for i := 0; i < n; i++ {
+			unshift(a + i)
+		}
+		return "ok", true
+	case "q":
+		listQuiet = true
+		defer func() { listQuiet = false }()
+		return strings.TrimSpace(do(op[1:])), true
+	case "sum":
+		n, first, last, sum, w := 0, 0, 0, 0, 1
+		each(func(v int) {
+			if n == 0 {
+				first = v
+			}
+			last = v
+			sum = (sum + w*v) % 1000000007
+			if sum < 0 { // Lean's % on Int is non-negative for a positive modulus
+				sum += 1000000007
+			}
+			w++
+			n++
+			if n > listWalkLimit {
+				panic(hangSignal{})
+			}
+		})
+		return itoa(n) + " " + itoa(first) + " " + itoa(last) + " " + itoa(sum), true
+	case "window":
+		i, j := atoi(op[1]), atoi(op[2])
+		var out []int
+		pos := 0
+		each(func(v int) {
+			if pos >= i && pos < j {
+				out = append(out, v)
+			}
+			pos++
+			if pos > listWalkLimit {
+				panic(hangSignal{})
+			}
+		})
+		return ints(out), true
+	}
+	return "", false
+}
+
 func eachS(l *list.SList[int]) string {
+	if listQuiet {
+		return ""
+	}
 	var out []int
 	l.Each(func(v int) {
 		out = append(out, v)
@@ -25,6 +84,9 @@ func eachS(l *list.SList[int]) string {
 
 func (r *slistRunner) Do(op []string) string {
 	l := r.l
+	if res, ok := listLong(op, l.Unshift, l.Each, r.Do); ok {
+		return res
+	}
 	switch op[0] {
 	case "unshift":
 		l.Unshift(atoi(op[1]))
@@ -64,6 +126,9 @@ func (r *slistRunner) Do(op []string) string {
 type dlistRunner struct{ l *list.DList[int] }
 
 func eachD(l *list.DList[int]) string {
+	if listQuiet {
+		return ""
+	}
 	var out []int
 	l.Each(func(v int) {
 		out = append(out, v)
@@ -76,6 +141,9 @@ func eachD(l *list.DList[int]) string {
 
 func (r *dlistRunner) Do(op []string) string {
 	l := r.l
+	if res, ok := listLong(op, l.Unshift, l.Each, r.Do); ok {
+		return res
+	}
 	switch op[0] {
 	case "unshift":
 		l.Unshift(atoi(op[1]))
@@ -141,6 +209,39 @@ func genC19(g *Gen) {
 			if kind == "dlist" {
 				ops = append(ops, "first", "last")
 			}
+			g.Emit(kind, []string{"1"}, ops)
+		}
+	}
+	// long lists: standard lengths and lengths around thresholds a change introduced into the source (walk limits)
+	longs := []int{700, 5003}
+	if g.Thorough() {
+		longs = append(longs, 20011)
+	}
+	for _, s := range extraSizes() {
+		if s <= 300000 {
+			longs = append(longs, s-1, s, s+1, 2*s+1)
+		}
+	}
+	for _, n := range longs {
+		for _, kind := range []string{"slist", "dlist"} {
+			if !g.Mine() {
+				continue
+			}
+			// the list starts as [1]; fill pushes 10, 11, … to the front: front = 10+n-1, …, 10, then 1 (the back)
+			top := 10 + n - 1
+			ops := []string{"fill 10 " + itoa(n), "sum", "window 0 30", "window " + itoa(n-25) + " " + itoa(n+1),
+				"q find 1", "q find 10", "q find " + itoa(top), "q find -7"}
+			if kind == "dlist" {
+				ops = append(ops, "q first", "q last")
+			}
+			ops = append(ops, "q append 5", "sum", "window "+itoa(n-3)+" "+itoa(n+2),
+				"q pop", "sum", "q pop", "sum", "q append 6", "q insertafter 10 7", "sum", "window "+itoa(n-5)+" "+itoa(n+3),
+				"q delete 7", "q delete 6", "q delete 11", "sum", "q replace 12 -12", "q replace 1 -1", "q find -12", "sum",
+				"q delete "+itoa(top), "q unshift 3", "q shift", "sum", "window 0 5")
+			if kind == "dlist" {
+				ops = append(ops, "q insertbefore -12 8", "q insertbefore "+itoa(top-1)+" 9", "sum", "q last", "q first")
+			}
+			ops = append(ops, "window "+itoa(n-30)+" "+itoa(n+2), "sum")
 			g.Emit(kind, []string{"1"}, ops)
 		}
 	}
